@@ -400,7 +400,6 @@ func ruleRPCPart(c *Ctx) []Obligation {
 
 var typeEqualExceptions = map[string]string{
 	"Name": "the name a type was written with carries no information about its value space (stated in Equal)",
-	"Base": "the syntactic type statement a derived type was written with; what it contributes is in the other components",
 	"Root": "pointer to the built-in type at the root of the derivation; Kind is compared",
 }
 
